@@ -424,6 +424,66 @@ void run_pickup(unsigned seed)
   layer_sizes = nullptr;
 }
 
+void section(const std::string &label);
+// several pickup experiments IN ONE PROCESS, each on a population built afresh AT THE SAME ADDRESS (std::optional storage),
+// each started with the same seed:  pickup_seq <seed> calls=<n> e0s0=30 e0s1=10 e1s0=5 e1s1=5 e1s2=30 ...
+// optional e<k>t<l>: the sizes the SAME population is reshaped to after half of the calls (same object, maybe same total).
+// Hidden state kept between populations (or not refreshed when the split changes) shows up as draws that differ between
+// two experiments with the same sizes, and as draws that are not the ones std::discrete_distribution gives on the live sizes.
+void run_pickup_seq(unsigned seed)
+{
+  ga_problem prob(2, {0, 10});
+  prob.env.init();
+  std::optional<population<i_ga>> pop;
+  layer_sizes = [&pop]
+  {
+    std::string s;
+    for (unsigned l(0); l < pop->layers(); ++l)
+      s += (l ? "," : "") + std::to_string(pop->individuals(l));
+    return s;
+  };
+  auto shape = [&](const std::vector<unsigned> &sizes)
+  {
+    const i_ga proto(pop->pop_[0][0]);
+    pop->pop_.assign(sizes.size(), {});
+    pop->allowed_.assign(sizes.size(), 0);
+    for (std::size_t l(0); l < sizes.size(); ++l)
+    {
+      pop->pop_[l].assign(sizes[l], proto);
+      pop->allowed_[l] = sizes[l];
+    }
+  };
+  auto sizes_of = [&](unsigned e, char tag)
+  {
+    std::vector<unsigned> sizes;
+    for (unsigned l(0); kv.count("e" + std::to_string(e) + tag + std::to_string(l)); ++l)
+      sizes.push_back(static_cast<unsigned>(opt("e" + std::to_string(e) + tag + std::to_string(l), 1)));
+    return sizes;
+  };
+  const unsigned n(static_cast<unsigned>(opt("calls", 10)));
+  for (unsigned e(0); kv.count("e" + std::to_string(e) + "s0"); ++e)
+  {
+    const auto sizes(sizes_of(e, 's')), later(sizes_of(e, 't'));
+    prob.env.individuals = 1;
+    random::seed(12345);
+    pop.emplace(prob);   // always the same address
+    shape(sizes);
+    section("experiment " + std::to_string(e) + " sizes " + layer_sizes());
+    random::verif::draw_sink = sink;
+    random::seed(seed);
+    for (unsigned k(0); k < n; ++k)
+    {
+      if (!later.empty() && k == n / 2)
+        shape(later);   // the same population object, another split
+      const auto c(pickup(*pop));
+      tr_ += "C " + std::to_string(c.layer) + " " + std::to_string(c.index) + "\n";
+    }
+    random::verif::draw_sink = nullptr;
+    pop.reset();
+  }
+  layer_sizes = nullptr;
+}
+
 // what an unrelated part of a program would do between two runs: create symbols
 void unrelated_symbols()
 {
@@ -478,6 +538,8 @@ int main(int argc, char *argv[])
     rc = run_sr<alps_es>(seed, class_data, evaluator_id::gaussian);
   else if (kind == "pickup")
     run_pickup(seed);
+  else if (kind == "pickup_seq")
+    run_pickup_seq(seed);
   else if (kind.rfind("inproc_mep_", 0) == 0)
   {
     by_name = true;
